@@ -516,6 +516,21 @@ func TestPropRoundTrip(t *testing.T) {
 	})
 }
 
+// TestPropRoundTripLarge: the same clauses for payloads of 64 KiB .. 2 MiB.
+func TestPropRoundTripLarge(t *testing.T) {
+	vlib.Check(t, 40, 600, func(t *rapid.T) {
+		ver := genVersion(t)
+		b := genBlob(t)
+		dl := rapid.OneOf(rapid.SampledFrom([]int{65535, 65536, 65537, 1 << 20, 1<<20 + 1}), rapid.IntRange(8193, 2<<20)).Draw(t, "largeDataLen")
+		b.data = fill(b.dseed, dl)
+		small := genBlob(t)
+		vf := newVolFile(t, ver)
+		defer vf.close()
+		appendAndCheck(t, vf, []*blob{small, b, small})
+		vlib.Case(fmt.Sprintf("v%d %s", ver, b), true, "roundtrip-large-data")
+	})
+}
+
 // enumerate calls fn for every element of the boundary cross product selected
 // by the tier: flags (all 128 subsets of the 7 defined bits) x data length x
 // name length x mime length x pairs length x version.
